@@ -789,6 +789,12 @@ def RebuildProxy(func, token, serializer, kwds):
     incref = kwds.pop('incref', True) and not getattr(
         current_process(), '_inheriting', False
     )
+    if 'authkey' not in kwds:
+        server = get_server(token.address)
+        if server is not None:
+            # Unpickled inside the server process (e.g. a proxy passed as an argument of a call):
+            # the key to use is the manager's, which need not be this process's own key.
+            kwds['authkey'] = server.authkey
     obj = func(token, serializer, incref=incref, **kwds)
     # `func` is either `AutoProxy` or a subclass of `BaseProxy`.
     # TODO: it appears `incref` is True some times and False some others, affecting by the '_inheriting` condition.
